@@ -386,7 +386,17 @@ def gen_page(rng, mode):
         kw.append([f, raw])
     if mode != "bad" and rng.random() < 0.3 and not any(f == "orientation" for f, _ in kw):
         kw.append(["orientation", {"t": "scalar", "v": jv("landscape")}])
-    return dict(kind="page", kw=kw, mode=mode)
+    narrow = False
+    if mode != "free" and rng.random() < 0.3:
+        # the DERIVED table width: a page width around the side allowance (2.25 in portrait, 2.5 in landscape), with
+        # and without an explicit col_width; the verdict is the driver's on the call as it stands
+        kw = [[f, r] for f, r in kw if f != "width"]
+        kw.append(["width", {"t": "scalar", "v": jv(rng.choice([2.25, 2.5, 2.2, 1, 0.75, 2.3, 2.4999, 2.2500000000000004,
+                                                                2.6, 2, 3, 2.25 - 1e-12, 2.5 + 1e-9]))}])
+        if rng.random() < 0.5:
+            kw = [[f, r] for f, r in kw if f != "col_width"]
+        narrow = True
+    return dict(kind="page", kw=kw, mode=mode, narrow=narrow)
 
 
 def gen_figure(rng, mode):
@@ -863,6 +873,21 @@ def _request(case):
     for k in ("df", "body", "header", "footnote", "source"):
         if case.get(k) is not None:
             rq[k] = case[k]
+    if case.get("body") is not None:
+        # the body of section k as the document sees it: grouping names from the spec, new_page / pageby_row from the
+        # inline component that builds it (defaults otherwise) — the group_by-on-a-removed-column rule reads them
+        import copy
+
+        rq["body"] = copy.deepcopy(case["body"])
+        specs = rq["body"]["multi"] if "multi" in rq["body"] else [rq["body"]["single"]]
+        for cc in case.get("comps", []):
+            role = cc.get("role", "")
+            if role.startswith("body:") and int(role.split(":")[1]) < len(specs):
+                ex = cc.get("extra") or {}
+                bs = specs[int(role.split(":")[1])]
+                bs["new_page"] = bool(ex.get("new_page", False))
+                pr = ex.get("pageby_row")
+                bs["pageby_column"] = True if pr is None else (pr == jv("column"))
     comps = sorted(case.get("comps", []), key=lambda cc: (not cc["role"].startswith("body"),
                                                           int(cc["role"].split(":")[1]) if ":" in cc["role"] else 0,
                                                           cc["role"]))
@@ -1141,6 +1166,8 @@ def run(res: common.Result, build) -> int:
     for c, o, d in zip(cases, obs, drv):
         res.case(c, nontrivial_key(c, d))
         res.count(f"{c['kind']}:{c['mode']}")
+        if c.get("narrow"):
+            res.count(f"page:width-around-side-allowance:{d['spec']}")
         res.count(f"verdict:{d['spec']}")
         res.count(f"impl:{o['pi']}" + (f":{o['exc']}" if o["pi"] == "other" else ""))
         if c["kind"] == "comp":
